@@ -36,6 +36,7 @@ def finals_of(rec_final):
     return [{"sched": bool(f["sched"]), "start": _i32(int(f["start"])), "end": _i32(int(f["end"]))} for f in rec_final]
 
 
+RELATE_BYTES = 12 * 2 ** 20      # ... and JSON bytes per TLC run
 RELATE_CHUNK = 4000       # obligations per TLC run (a quarter of a million in one run neither fit the heap nor the time limit)
 
 
@@ -44,17 +45,32 @@ def decide(obligations, timeout=1800):
     Returns dict id -> (differing task positions, first differing event index), TlcResult."""
     if not obligations:
         return {}, None
-    if len(obligations) > RELATE_CHUNK:
+    sizes = [len(json.dumps(o.get("levs") or [])) + len(json.dumps(o.get("revs") or [])) + 200 * (len(o["left"]) + 1) for o in obligations]
+    if len(obligations) > RELATE_CHUNK or (sum(sizes) > RELATE_BYTES and len(obligations) > 1):
+        # chunks bounded by number AND by size: every TLC worker builds the whole input as TLA+ values (16 copies of a
+        # 100 MB input do not fit the heap, and the JSON reader then fails at a random place)
+        chunks, cur, cur_b = [], [], 0
+        for o, b_ in zip(obligations, sizes):
+            if cur and (len(cur) >= RELATE_CHUNK or cur_b + b_ > RELATE_BYTES):
+                chunks.append(cur)
+                cur, cur_b = [], 0
+            cur.append(o)
+            cur_b += b_
+        chunks.append(cur)
         out, last = {}, None
         gen = dis = 0
-        for i in range(0, len(obligations), RELATE_CHUNK):
-            part, res = decide(obligations[i:i + RELATE_CHUNK], timeout=timeout)
+        for ch in chunks:
+            part, res = _decide_one(ch, timeout)
             out.update(part)
             gen, dis, last = gen + res.generated, dis + res.distinct, res
         last.generated, last.distinct = gen, dis
         if len(out) != len(obligations):
             raise MachineryError("Relate: %d verdicts for %d obligations (ids not unique?)" % (len(out), len(obligations)))
         return out, last
+    return _decide_one(obligations, timeout)
+
+
+def _decide_one(obligations, timeout):
     fd, path = tempfile.mkstemp(prefix="sprel_", suffix=".ndjson")
     try:
         with os.fdopen(fd, "w") as f:
